@@ -41,7 +41,7 @@ CFG = {
                   "Rotate/Translate/Scale/ApplyTRS are loops (not translated): modelled as map and tied by correspondence",
     "technique": "translation Go -> Gallina + Coq proof (ring/field identities, real analysis) + vm_compute differential",
     "design_ref": "DESIGN.md §4 C17",
-    "n_quick": 360, "n_thorough": 6000,
+    "n_quick": 300, "n_thorough": 6000,
     "rule": "fixed: all 256 pairs of basis matrices E_ij,E_kl through Add+Multiply, identity plus one off-diagonal entry "
             "at each of the 16 positions through Determinant/Inverse/MulPosition, RotationTo on all 36 pairs of signed "
             "coordinate axes, the 16 pairs of quaternion units; generated (10 kinds in rotation, 2/3 exact integer/dyadic, "
